@@ -33,6 +33,7 @@ PREFIX = [
     ["mutate", [["x", ["add", src("x"), lit(1)]]]],  # overwrite: hidden twin
     ["filter", [["ge", src("k"), lit(2)]]],
     ["group_by", [src("g")]],
+    ["group_by", [src("x"), src("k")]],  # two keys, not in column order
     ["arrange", [["desc", src("k")]]],
     ["mutate", [["y", ["mul", src("k"), lit(2)]]]],
     ["summarize", [["m", ["max", src("x")]]]],  # drops columns: their references must stay dead after re-rooting
